@@ -13,36 +13,255 @@ package flatecut
 //@   pure
 //@   requires len(b) >= 8
 
-// bsOK: the read position is inside the buffer and at most 63 bits are pending.
-//@ spec bsOK(b *bitstream) bool = b != nil && 0 <= b.index && b.index <= len(b.bytes) && b.nBits <= 63 && int(b.nBits / 8) <= b.index
+// bsOK: the read position is inside the buffer, at most 63 bits are pending and
+// every pending bit came from a byte before the read position.
+//@ spec bsOK(b *bitstream) bool = b != nil && 0 <= b.index && b.index <= len(b.bytes) && b.nBits <= 63 && math(b.nBits) <= math(8)*math(b.index)
+// consumed: the number of bits of the buffer handed out so far.
+//@ spec consumed(b *bitstream) int = 8*b.index - int(b.nBits)
 
-// take(n): n more bits or the "not enough data" sentinel; never reads past the buffer.
+// A huffman table: psum(h, n) is the number of codes shorter than n bits (the
+// position in h.symbols where the n-bit codes start). hOK: no more than 288
+// codes in all, so that every symbols[...] index formed by slowDecode is in range.
+//@ ospec psum(h *huffman, n int) int = ite(n > 1, int(h.counts[1]), 0) + ite(n > 2, int(h.counts[2]), 0) + ite(n > 3, int(h.counts[3]), 0) + ite(n > 4, int(h.counts[4]), 0) + ite(n > 5, int(h.counts[5]), 0) + ite(n > 6, int(h.counts[6]), 0) + ite(n > 7, int(h.counts[7]), 0) + ite(n > 8, int(h.counts[8]), 0) + ite(n > 9, int(h.counts[9]), 0) + ite(n > 10, int(h.counts[10]), 0) + ite(n > 11, int(h.counts[11]), 0) + ite(n > 12, int(h.counts[12]), 0) + ite(n > 13, int(h.counts[13]), 0) + ite(n > 14, int(h.counts[14]), 0) + ite(n > 15, int(h.counts[15]), 0)
+//@ spec hOK(h *huffman) bool = psum(h, 16) <= 288
+// symIn: r is one of the symbols filled in by the last construct.
+//@ spec symIn(h *huffman, r int32) bool = exists(k, 0, psum(h, 16), h.symbols[k] == r)
+//@ spec symsBelow(h *huffman, n int) bool = forall(k, 0, psum(h, 16), 0 <= h.symbols[k] && int(h.symbols[k]) < n)
+// lutOK: a non-zero look-up entry uses at most 8 bits and names a filled-in symbol.
+//@ spec lutOK(h *huffman) bool = forall(j, 0, 256, h.lookUpTable[j] == 0 || (1 <= h.lookUpTable[j] >> 16 && h.lookUpTable[j] >> 16 <= 8 && symIn(h, int32(h.lookUpTable[j] & 0xFFFF))))
+// cap2(i) = 2^i for 0 <= i <= 16 (the largest code of i bits plus one).
+//@ spec cap2(i int) int = ite(i <= 0, 1, ite(i <= 1, 2, ite(i <= 2, 4, ite(i <= 3, 8, ite(i <= 4, 16, ite(i <= 5, 32, ite(i <= 6, 64, ite(i <= 7, 128, ite(i <= 8, 256, ite(i <= 9, 512, ite(i <= 10, 1024, ite(i <= 11, 2048, ite(i <= 12, 4096, ite(i <= 13, 8192, ite(i <= 14, 16384, ite(i <= 15, 32768, 65536))))))))))))))))
+
+// take(n): n more bits or the "not enough data" sentinel; never reads past the
+// buffer; on success exactly n more bits are consumed.
 //@ func (*bitstream).take
 //@   prop C16
 //@   mode bv
 //@   requires bsOK(b) && nBits <= 16
 //@   ensures bsOK(b) && (result == -0x80000000 || (0 <= result && result < (int32(1) << nBits)))
 //@   ensures unchanged(b.bytes) && b.index >= old(b.index)
+//@   ensures[zero] implies(nBits == 0, result == 0)
+//@   ensures[bitcount] implies(result >= 0, math(8)*math(b.index) - math(b.nBits) == old(math(8)*math(b.index) - math(b.nBits)) + math(nBits))
 //@   modifies b.index, b.bits, b.nBits
 //@   loop 1 invariant bsOK(b) && unchanged(b.bytes) && b.index >= old(b.index) && nBits <= 16
+//@   loop 1 invariant math(8)*math(b.index) - math(b.nBits) == old(math(8)*math(b.index) - math(b.nBits))
 //@   loop 1 decreases nBits + 8 - b.nBits
 
-// The result of the block walk: on success the cut point is inside the limit.
-// The Huffman machinery behind it (construct/decode/doHuffman/writeEndCode and
-// the block loop) is NOT verified here: its summary is assumed.
+// slowDecode: walks at most 15 bits; every symbols[...] index is below psum(h, 16).
+//@ func (*huffman).slowDecode
+//@   prop C16
+//@   requires bsOK(b) && hOK(h)
+//@   ensures bsOK(b) && unchanged(b.bytes) && b.index >= old(b.index)
+//@   ensures result == -0x80000000 || symIn(h, result)
+//@   ensures consumed(b) >= old(consumed(b)) && consumed(b) <= old(consumed(b)) + 15 && implies(result >= 0, consumed(b) >= old(consumed(b)) + 1)
+//@   ensures b.nBits <= 7 || b.nBits <= old(b.nBits)
+//@   modifies b.index, b.bits, b.nBits
+//@   loop 1 invariant 1 <= i && i <= 16 && bsOK(b) && unchanged(b.bytes) && b.index >= old(b.index)
+//@   loop 1 invariant first <= code && int(code) < cap2(i) && int(code) % 2 == 0 && int(symIndex) == psum(h, i)
+//@   loop 1 invariant consumed(b) == old(consumed(b)) + (i - 1) && (b.nBits <= 7 || b.nBits <= old(b.nBits))
+//@   loop 1 decreases 16 - i
+
+// decode: the table look-up is taken only with at least 8 pending bits, and an
+// entry never uses more than 8.
+//@ func (*huffman).decode
+//@   prop C16
+//@   requires bsOK(b) && hOK(h) && lutOK(h)
+//@   ensures bsOK(b) && unchanged(b.bytes) && b.index >= old(b.index)
+//@   ensures result == -0x80000000 || symIn(h, result)
+//@   ensures consumed(b) >= old(consumed(b)) && consumed(b) <= old(consumed(b)) + 15 && implies(result >= 0, consumed(b) >= old(consumed(b)) + 1)
+//@   modifies b.index, b.bits, b.nBits
+//@   wraps shl
+
+// cnt(s, n, L): how many of s[0..n) equal L (the counting-sort argument of construct).
+//@ ospec cnt(s []uint32, n int, L uint32) int = ite(n <= 0, 0, cnt(s, n-1, L) + ite(s[n-1] == L, 1, 0))
+//@ spec csum(h *huffman) int = int(h.counts[0]) + int(h.counts[1]) + int(h.counts[2]) + int(h.counts[3]) + int(h.counts[4]) + int(h.counts[5]) + int(h.counts[6]) + int(h.counts[7]) + int(h.counts[8]) + int(h.counts[9]) + int(h.counts[10]) + int(h.counts[11]) + int(h.counts[12]) + int(h.counts[13]) + int(h.counts[14]) + int(h.counts[15])
+
+//@ lemma cntMono(s []uint32, n int, m int, L uint32)
+//@   prop C16
+//@   induct m from n
+//@   requires 0 <= n && n <= m && m <= len(s)
+//@   ensures cnt(s, n, L) <= cnt(s, m, L)
+
+//@ lemma psumStep(h *huffman, n int, m int)
+//@   prop C16
+//@   requires h != nil && 1 <= n && n <= 15 && m == n + 1
+//@   ensures psum(h, m) == psum(h, n) + int(h.counts[n])
+
+//@ lemma psumMono(h *huffman, n int, m int)
+//@   prop C16
+//@   requires h != nil && 1 <= n && n <= m && m <= 16
+//@   ensures 0 <= psum(h, n) && psum(h, n) <= psum(h, m)
+
+//@ lemma psumRoom(h *huffman, n int)
+//@   prop C16
+//@   requires h != nil && 1 <= n && n <= 15
+//@   ensures psum(h, n) + int(h.counts[n]) <= psum(h, 16)
+
+// cntLt: an occurrence of L at position n is counted by every longer prefix.
+//@ lemma cntLt(s []uint32, n int, L uint32)
+//@   prop C16
+//@   uses cntMono
+//@   requires 0 <= n && n < len(s) && s[n] == L
+//@   have cnt(s, n + 1, L) == cnt(s, n, L) + 1
+//@   ensures cnt(s, n, L) < cnt(s, len(s), L)
+//@   trigger cnt(s, n, L), cnt(s, len(s), L)
+
+// construct: counting sort of the symbols by code length. With at most 288
+// non-zero lengths (or non-zero lengths only among the first 19 entries: the
+// code-length alphabet, which doDynamicHuffman keeps in a longer slice) every
+// symbols[...] index is in range and the table satisfies hOK.
+//@ func (*huffman).construct
+//@   prop C16
+//@   requires len(lengths) <= 320 && forall(k, 0, len(lengths), lengths[k] <= 15) && base(lengths) != base(h.counts[:]) && base(lengths) != base(h.lookUpTable[:])
+//@   requires forall(k, 19, len(lengths), len(lengths) <= 288 || lengths[k] == 0)
+//@   ensures endCodeNBits <= 15 && (retErr == nil || retErr == errInvalidBadHuffmanTree)
+//@   ensures implies(retErr == nil, hOK(h) && symsBelow(h, len(lengths)) && lutOK(h))
+//@   ensures[nonzero] implies(retErr == nil, forall(k, 0, psum(h, 16), lengths[h.symbols[k]] != 0))
+//@   modifies h.counts, h.symbols, h.lookUpTable
+//@   wraps sub into endCodeBits
+//@   loop 1 invariant -1 <= rangeindex_1 && rangeindex_1 <= 15 && forall(k, 0, rangeindex_1 + 1, h.counts[k] == 0)
+//@   loop 1 decreases 16 - rangeindex_1
+//@   loop 2 invariant -1 <= rangeindex_2 && rangeindex_2 < len(lengths) && csum(h) == rangeindex_2 + 1
+//@   loop 2 invariant forall(k, 0, len(lengths), lengths[k] <= 15) && forall(k, 19, len(lengths), len(lengths) <= 288 || lengths[k] == 0)
+//@   loop 2 invariant forall(L, 0, 16, int(h.counts[L]) == cnt(lengths, rangeindex_2 + 1, uint32(L)))
+//@   loop 2 invariant len(lengths) <= 288 || int(h.counts[0]) >= rangeindex_2 + 1 - 19
+//@   loop 2 decreases len(lengths) - rangeindex_2
+//@   loop 3 invariant 1 <= i && i <= 16 && int(remaining) <= cap2(int(i) - 1) && endCodeNBits <= 15
+//@   loop 3 decreases 16 - i
+//@   loop 4 invariant -1 <= rangeindex_3 && rangeindex_3 < len(lengths) - 257 && int(remainingForEndCode) <= 32768 + rangeindex_3 + 1
+//@   loop 4 decreases len(lengths) - rangeindex_3
+//@   loop 5 cutcontext
+//@   loop 5 uses psumRoom psumStep
+//@   loop 5 invariant 1 <= i && i <= 15 && forall(L, 1, i + 1, int(offsets[L]) == psum(h, L)) && endCodeNBits <= 15 && forall(k, 0, len(lengths), lengths[k] <= 15)
+//@   loop 5 invariant hOK(h) && forall(L, 0, 16, int(h.counts[L]) == cnt(lengths, len(lengths), uint32(L)))
+//@   loop 5 decreases 15 - i
+//@   loop 6 cutcontext
+//@   loop 6 uses psumRoom psumStep psumMono cntLt
+//@   loop 6 invariant -1 <= rangeindex_4 && rangeindex_4 < len(lengths) && endCodeNBits <= 15 && forall(k, 0, len(lengths), lengths[k] <= 15)
+//@   loop 6 invariant hOK(h) && forall(L, 0, 16, int(h.counts[L]) == cnt(lengths, len(lengths), uint32(L)))
+//@   loop 6 invariant forall(L, 1, 16, int(offsets[L]) == psum(h, L) + cnt(lengths, rangeindex_4 + 1, uint32(L)))
+//@   loop 6 invariant forall(L, 1, 16, forall(k, psum(h, L), int(offsets[L]), 0 <= h.symbols[k] && int(h.symbols[k]) < len(lengths) && lengths[h.symbols[k]] != 0))
+//@   loop 6 decreases len(lengths) - rangeindex_4
+
+// constructLookUpTable: every entry is 0 or (bits used <= 8, a filled-in symbol).
+//@ func (*huffman).constructLookUpTable
+//@   prop C16
+//@   requires hOK(h) && symsBelow(h, 320)
+//@   ensures lutOK(h)
+//@   modifies h.lookUpTable
+//@   loop 1 invariant -1 <= rangeindex && rangeindex <= 255
+//@   loop 1 invariant forall(j, 0, rangeindex + 1, h.lookUpTable[j] == 0 || (1 <= h.lookUpTable[j] >> 16 && h.lookUpTable[j] >> 16 <= 8 && symIn(h, int32(h.lookUpTable[j] & 0xFFFF))))
+//@   loop 1 decreases 256 - rangeindex
+
+// writeEndCode: the end-of-block code is written into the bits after the read
+// position; the caller has checked that they are inside the buffer.
+//@ func (*cutter).writeEndCode
+//@   prop C16
+//@   requires bsOK(c.bits) && c.bits.nBits <= 7 && c.endCodeNBits <= 15 && consumed(c.bits) + int(c.endCodeNBits) <= 8*len(c.bits.bytes)
+//@   ensures bsOK(c.bits) && c.bits.nBits <= 7 && unchanged(c.bits.bytes) && consumed(c.bits) == old(consumed(c.bits)) + int(c.endCodeNBits)
+//@   modifies c.bits.index, c.bits.nBits, mem(c.bits.bytes)
+//@   wraps shl mul
+//@   loop 1 invariant j <= c.endCodeNBits && bsOK(c.bits) && c.bits.nBits <= 7 && unchanged(c.bits.bytes) && unchanged(c.endCodeNBits)
+//@   loop 1 invariant consumed(c.bits) + int(j) == old(consumed(c.bits)) + int(c.endCodeNBits)
+//@   loop 1 decreases j
+
+// cOK: the cutter's stream is well formed and the limit is inside the buffer.
+// (A byte slice longer than 2^56 cannot exist; the bound keeps 8*index inside uint64.)
+//@ spec cOK(c *cutter) bool = c != nil && bsOK(c.bits) && 2 <= c.maxEncodedLen && c.maxEncodedLen <= len(c.bits.bytes) && len(c.bits.bytes) <= 0x100000000000000 && c.decodedLen >= 0
+
+//@ lemma tables
+//@   prop C16
+//@   expand
+//@   ensures forall(i, 0, 19, codeOrder[i] < 19)
+//@   ensures forall(i, 0, 32, lExtras[i] <= 16 && dExtras[i] <= 16)
+//@   ensures forall(i, 0, 32, (lBases[i] >= 0 || lExtras[i] == 0) && (dBases[i] >= 0 || dExtras[i] == 0) && lBases[i] <= 258 && dBases[i] <= 24577)
+
+// cut: the block loop. On success the cut point is inside the limit.
 //@ func (*cutter).cut
 //@   prop C16
-//@   trusted block walker (Huffman tables, symbol decoding): summary assumed, see DESIGN.md
-//@   requires c != nil
-//@   ensures implies(retErr == nil, 0 <= encodedLen && encodedLen <= c.maxEncodedLen && decodedLen >= 0 && encodedLen >= 2)
+//@   requires cOK(c) && c.bits.index == 0 && c.bits.nBits == 0 && c.decodedLen == 0
+//@   ensures implies(retErr == nil, 0 <= encodedLen && encodedLen <= c.maxEncodedLen && decodedLen >= 0)
 //@   ensures unchanged(c.maxEncodedLen) && unchanged(c.bits.bytes)
 //@   modifies *c, mem(c.bits.bytes)
+//@   loop 1 invariant cOK(c) && unchanged(c.maxEncodedLen) && unchanged(c.bits.bytes) && c.bits.nBits <= 7 && consumed(c.bits) <= 8*c.maxEncodedLen
+//@   loop 1 invariant prevFinalBlockIndex == -1 || (1 <= prevFinalBlockIndex && prevFinalBlockIndex <= len(c.bits.bytes) && prevFinalBlockNBits <= 7)
+//@   loop 1 decreases 8*len(c.bits.bytes) - consumed(c.bits)
+//@   loop 2 invariant finalBlockNBits <= 63 && 1 <= 8*finalBlockIndex - int(finalBlockNBits) && finalBlockIndex <= len(c.bits.bytes) && 8*finalBlockIndex - int(finalBlockNBits) == consumed(c.bits)
+//@   loop 3 invariant cOK(c) && unchanged(c.maxEncodedLen) && unchanged(c.bits.bytes) && consumed(c.bits) == atentry(3, consumed(c.bits))
+//@   loop 3 decreases c.bits.nBits
+//@   loop 2 decreases finalBlockNBits
+//@   loop 4 invariant cOK(c) && unchanged(c.maxEncodedLen) && unchanged(c.bits.bytes) && consumed(c.bits) == atentry(4, consumed(c.bits))
+//@   loop 4 decreases c.bits.nBits
+
+// doStaticHuffman: the fixed code lengths of RFC 1951 section 3.2.6.
+//@ func (*cutter).doStaticHuffman
+//@   prop C16
+//@   requires cOK(c)
+//@   ensures cOK(c) && unchanged(c.maxEncodedLen) && unchanged(c.bits.bytes)
+//@   ensures implies(result == nil || result == errInternalSomeProgress, consumed(c.bits) <= 8*c.maxEncodedLen)
+//@   ensures[progress] implies(result == nil, consumed(c.bits) >= old(consumed(c.bits)))
+//@   modifies *c, mem(c.bits.bytes)
+//@   loop 1 invariant 0 <= i && i <= 144 && forall(k, 0, len(lengths), lengths[k] <= 15)
+//@   loop 1 decreases 144 - i
+//@   loop 2 invariant 144 <= i && i <= 256 && forall(k, 0, len(lengths), lengths[k] <= 15)
+//@   loop 2 decreases 256 - i
+//@   loop 3 invariant 256 <= i && i <= 280 && forall(k, 0, len(lengths), lengths[k] <= 15)
+//@   loop 3 decreases 280 - i
+//@   loop 4 invariant 280 <= i && i <= 288 && forall(k, 0, len(lengths), lengths[k] <= 15)
+//@   loop 4 decreases 288 - i
+//@   loop 5 invariant 288 <= i && i <= 320 && forall(k, 0, len(lengths), lengths[k] <= 15)
+//@   loop 5 decreases 320 - i
+
+// doDynamicHuffman: reads the code-length code and then the literal/length and
+// distance code lengths (RFC 1951 section 3.2.7).
+//@ func (*cutter).doDynamicHuffman
+//@   prop C16
+//@   uses tables
+//@   requires cOK(c)
+//@   ensures cOK(c) && unchanged(c.maxEncodedLen) && unchanged(c.bits.bytes)
+//@   ensures implies(result == nil || result == errInternalSomeProgress, consumed(c.bits) <= 8*c.maxEncodedLen)
+//@   ensures[progress] implies(result == nil, consumed(c.bits) >= old(consumed(c.bits)))
+//@   modifies *c, mem(c.bits.bytes)
+//@   loop 1 invariant consumed(c.bits) >= old(consumed(c.bits)) && 0 <= i && i <= numCodeLengths && numCodeLengths <= 19 && cOK(c) && unchanged(c.maxEncodedLen) && unchanged(c.bits.bytes) && unchanged(c.decodedLen)
+//@   loop 1 invariant 257 <= numLCodes && numLCodes <= 286 && 1 <= numDCodes && numDCodes <= 30 && len(lengths) == int(numLCodes) + int(numDCodes)
+//@   loop 1 invariant forall(k, 0, len(lengths), lengths[k] <= 7) && forall(k, 19, len(lengths), lengths[k] == 0)
+//@   loop 1 decreases numCodeLengths - i
+//@   loop 2 invariant consumed(c.bits) >= old(consumed(c.bits)) && 0 <= i && int(i) <= len(lengths) && cOK(c) && unchanged(c.maxEncodedLen) && unchanged(c.bits.bytes) && unchanged(c.decodedLen)
+//@   loop 2 invariant 257 <= numLCodes && numLCodes <= 286 && 1 <= numDCodes && numDCodes <= 30 && len(lengths) == int(numLCodes) + int(numDCodes)
+//@   loop 2 invariant forall(k, 0, len(lengths), lengths[k] <= 15) && hOK(c.lHuff) && lutOK(c.lHuff) && symsBelow(c.lHuff, 19)
+//@   loop 2 decreases math(8)*math(len(c.bits.bytes)) - math(consumed(c.bits)), len(lengths) - int(i)
+//@   loop 3 invariant 0 <= count && 0 <= i && int(i) + int(count) <= len(lengths) && value <= 15 && forall(k, 0, len(lengths), lengths[k] <= 15)
+//@   loop 3 decreases count
+
+// doHuffman: walks the symbols of one Huffman block, remembering the last
+// symbol boundary that still leaves room for an end-of-block code.
+//@ func (*cutter).doHuffman
+//@   prop C16
+//@   uses tables
+//@   requires cOK(c) && len(lLengths) <= 288 && len(dLengths) <= 32 && forall(k, 0, len(lLengths), lLengths[k] <= 15) && forall(k, 0, len(dLengths), dLengths[k] <= 15)
+//@   requires fresh(base(lLengths)) || (base(lLengths) != base(c.lHuff.counts[:]) && base(lLengths) != base(c.lHuff.lookUpTable[:]) && base(lLengths) != base(c.dHuff.counts[:]) && base(lLengths) != base(c.dHuff.lookUpTable[:]))
+//@   requires base(dLengths) == base(lLengths)
+//@   ensures cOK(c) && unchanged(c.maxEncodedLen) && unchanged(c.bits.bytes)
+//@   ensures[limit] implies(result == nil || result == errInternalSomeProgress, consumed(c.bits) <= 8*c.maxEncodedLen)
+//@   ensures[progress] implies(result == nil, consumed(c.bits) >= old(consumed(c.bits)))
+//@   modifies *c, mem(c.bits.bytes)
+//@   wraps add into decodedLen
+//@   loop 1 invariant cOK(c) && unchanged(c.maxEncodedLen) && unchanged(c.bits.bytes) && unchanged(c.decodedLen) && consumed(c.bits) == atentry(1, consumed(c.bits))
+//@   loop 1 invariant hOK(c.lHuff) && lutOK(c.lHuff) && symsBelow(c.lHuff, 288) && hOK(c.dHuff) && lutOK(c.dHuff) && symsBelow(c.dHuff, 32) && 1 <= c.endCodeNBits && c.endCodeNBits <= 15
+//@   loop 1 decreases c.bits.nBits
+//@   loop 2 invariant cOK(c) && unchanged(c.maxEncodedLen) && unchanged(c.bits.bytes) && consumed(c.bits) >= old(consumed(c.bits))
+//@   loop 2 invariant hOK(c.lHuff) && lutOK(c.lHuff) && symsBelow(c.lHuff, 288) && hOK(c.dHuff) && lutOK(c.dHuff) && symsBelow(c.dHuff, 32) && 1 <= c.endCodeNBits && c.endCodeNBits <= 15
+//@   loop 2 invariant checkpointIndex == -1 || (0 <= checkpointIndex && checkpointIndex <= len(c.bits.bytes) && checkpointNBits <= 63 && int(checkpointNBits) <= 8*checkpointIndex && 8*checkpointIndex - int(checkpointNBits) + int(c.endCodeNBits) <= 8*c.maxEncodedLen)
+//@   loop 2 decreases 8*len(c.bits.bytes) - consumed(c.bits)
+//@   loop 3 invariant cOK(c) && unchanged(c.maxEncodedLen) && unchanged(c.bits.bytes) && consumed(c.bits) == atentry(3, consumed(c.bits)) && 1 <= c.endCodeNBits && c.endCodeNBits <= 15
+//@   loop 3 decreases c.bits.nBits
 
 // doStored: a stored block that does not fit is shortened in place; LEN + NLEN = 0xFFFF.
 //@ func (*cutter).doStored
 //@   prop C16
 //@   requires c != nil && bsOK(c.bits) && 0 <= c.maxEncodedLen && c.maxEncodedLen <= len(c.bits.bytes) && c.decodedLen >= 0
 //@   ensures bsOK(c.bits) && unchanged(c.bits.bytes) && c.decodedLen >= 0
+//@   ensures[progress] implies(result == nil, consumed(c.bits) >= old(consumed(c.bits)))
 //@   ensures[nostalebits] implies(result == nil || result == errInternalSomeProgress, c.bits.nBits == 0 && c.bits.bits == 0 && c.bits.index <= c.maxEncodedLen)
 //@   ensures[patched] implies(result == errInternalSomeProgress, c.bits.index == c.maxEncodedLen && int(c.bits.bytes[old(c.bits.index) - int(old(c.bits.nBits) / 8)]) + 256*int(c.bits.bytes[old(c.bits.index) - int(old(c.bits.nBits) / 8) + 1]) + int(c.bits.bytes[old(c.bits.index) - int(old(c.bits.nBits) / 8) + 2]) + 256*int(c.bits.bytes[old(c.bits.index) - int(old(c.bits.nBits) / 8) + 3]) == 0xFFFF)
 //@   modifies c.bits.index, c.bits.bits, c.bits.nBits, c.decodedLen, mem(c.bits.bytes)
